@@ -86,6 +86,30 @@ theorem c05_t_calcEnsuredIDsCount (ids : List Nat) (rest : List Frac) (order : I
       rw [if_neg c1, hlen, s, c2]
       simp only [Option.bind_some, if_true]
 
+/-- the loop of `Searcher.SearchDocs`: it goes on exactly when `Merge.searchLoop` does (`rest ≠ [] ∧ (scanAll ∨ limit > 0)`) -/
+theorem c05_t_searchLoopCond (scanAll : Bool) (limit : Nat) (rest : List Frac) :
+    T.searchLoopCond scanAll limit rest = !decide (rest = [] ∨ ¬ (scanAll = true ∨ limit > 0)) := by
+  unfold T.searchLoopCond len
+  cases rest with
+  | nil => simp
+  | cons f fs =>
+    have h1 : (((f :: fs).length : Nat) : Int) > 0 := by simp only [List.length_cons]; omega
+    have h2 : ((limit : Int) > 0) ↔ limit > 0 := by omega
+    have h3 : ¬ (f :: fs = []) := by simp
+    simp only [h1, true_and, h2, h3, false_or]
+    by_cases hA : scanAll = true ∨ limit > 0 <;> simp [hA]
+
+/-- ... and the limit of the next round is `orig - calcEnsured ..` (the ensured IDs are among the merged ones, at most
+`orig` of them: the model's truncated subtraction is the code's `int` subtraction) -/
+theorem c05_t_nextLimit (orig : Nat) (ids : List Nat) (rest : List Frac) (order old : Int)
+    (ho : orig < 4611686018427387904) (hle : calcEnsured (decide (order ≠ 1)) ids rest ≤ orig) :
+    T.nextLimit orig ids rest order (fun f => f) (fun k => (midOf k : Int)) (fun f => (f.from_ : Int)) (fun f => (f.to_ : Int)) old
+      = some ((orig - calcEnsured (decide (order ≠ 1)) ids rest : Nat) : Int) := by
+  unfold T.nextLimit
+  rw [c05_t_calcEnsuredIDsCount]
+  simp only [Option.bind_some, Option.some.injEq]
+  unfold wrapI64; omega
+
 /-- a negative offset panics (`ids[offset:]`) -/
 theorem c05_t_paginateIDs_negative (ids : List Nat) (offset size : Int) (h : offset < 0) :
     T.Ingestor_paginateIDs ids offset size = none := by
